@@ -1,5 +1,6 @@
 -- Root of the `PwVerif` library: every property file (and through them the models and lemmas).
 import PwVerif.Props.C01
+import PwVerif.Props.C02
 import PwVerif.Props.C03
 import PwVerif.Props.C04
 import PwVerif.Props.C05
